@@ -133,7 +133,8 @@ def make_world(rng, d):
         url = "http://store.example/lib/s%d.json" % k
         # the caller may hand the document over under a spelling with an empty fragment ({doc[id]: doc})
         store[url + "#" if rng.random() < 0.4 else url] = {"definitions": {"a": g.keyword_schema("type")}, "type": "object"}
-        for sp in rng.sample([url, url + "#", url + "#/definitions/a"], 2):
+        # (a scheme is case-insensitive: 'HTTP://...' names the stored document too - and reading it stores nothing)
+        for sp in rng.sample([url, url + "#", url + "#/definitions/a", url.replace("http://", "HTTP://"), url.replace("http://", "Http://") + "#/definitions/a"], 3):
             props["s%d_%d" % (k, len(props))] = {"$ref": sp}
             refs.append(sp)
     metas = []
@@ -142,7 +143,7 @@ def make_world(rng, d):
         base = "http://json-schema.org/draft-0%d/schema" % dd
         frag = {3: "#/properties/minItems", 4: "#/definitions/positiveInteger", 6: "#/definitions/nonNegativeInteger",
                 7: "#/definitions/simpleTypes"}[dd]
-        for sp in rng.sample([base, base + "#", base + frag, base + "#/properties/title"], 2):
+        for sp in rng.sample([base, base + "#", base + frag, base + "#/properties/title", base.replace("http://", "HTTP://")], 2):
             props["m%d_%d" % (dd, len(props))] = {"$ref": sp}
             refs.append(sp)
             metas.append(sp)
